@@ -360,6 +360,12 @@ def explore(task):
                         for r2 in again:
                             if r2 is not None and hasattr(r2, "acl") and r2 is not w and not set(fs) <= flags_of(r2):
                                 try:
+                                    # the fresh wrapper is USED before it is restricted further (start states cover
+                                    # "restricted before any use"): whatever it remembered must not survive restrict()
+                                    if h5ops.is_group(r2):
+                                        for _k in list(r2.keys())[:2]:
+                                            r2[_k], r2.get(_k)
+                                        list(r2.values())
                                     r2.restrict(**{f: True for f in fs})
                                     variants.append(r2)
                                 except Exception:
